@@ -111,12 +111,12 @@ type lockAnalysis struct {
 }
 
 type accAgg struct {
-	fn     string
-	what   string
-	pos    token.Pos
-	need   int
-	bad    []string
-	n      int
+	fn   string
+	what string
+	pos  token.Pos
+	need int
+	bad  []string
+	n    int
 }
 
 func runLock(c *Ctx, rule string) {
